@@ -8,6 +8,9 @@ import collections
 from .common import dec, enc
 
 
+END = ("\x00end-of-input",)      # end marker of FOLLOW sets: no terminal value equals it (a terminal may be "$")
+
+
 class RefCFG:
     def __init__(self, start, prods, variables=(), terminals=()):
         self.start = start
@@ -215,7 +218,8 @@ class RefCFG:
         out.add(None)
         return out
 
-    def follow_sets(self, end="$"):
+    def follow_sets(self, end=None):
+        end = END if end is None else end
         first = self.first_sets()
         follow = {v: set() for v in self.vars}
         if self.start is not None:
